@@ -102,6 +102,40 @@ Section WithDb.
     exists rid, dops, dd, r. repeat split; auto.
   Qed.
 
+  (* the converse: whenever some full-length reading of the bytes is a form of the called mnemonic whose decorations and operands
+     match, the verdict IS 0 -- verdict 0 is equivalent to the existence of such a reading *)
+  Theorem judge_ok_complete : forall m name ops dc bs rid dops dd r,
+    In (rid, dops, dd, length bs) (denote2 bucket wbucket m bs) -> row_of rid = Some r -> r_name r = name ->
+    deco_match dc dd = true ->
+    (ops_match m (r_ops r) (op_bits (r_ops r)) ops dops = true \/
+     ops_match m (explicit_specs (r_ops r)) (op_bits (r_ops r)) ops (explicit_only (r_ops r) dops) = true) ->
+    fst (judge bucket wbucket row_of m name ops dc bs) = 0.
+  Proof.
+    intros m name ops dc bs rid dops dd r Hin Er Hn Hd Ho. unfold judge.
+    set (cands := denote2 bucket wbucket m bs) in *.
+    match goal with |- context [filter ?f cands] => set (flt := f) end.
+    assert (Hg : In (rid, dops, dd, length bs) (filter flt cands)).
+    { apply filter_In. split; [exact Hin|]. unfold flt. rewrite Er. apply Z.eqb_eq in Hn. rewrite Hn, Hd. cbn [andb].
+      destruct Ho as [Ho|Ho]; rewrite Ho; [reflexivity | apply orb_true_r]. }
+    destruct cands as [|c0 cs] eqn:Ec; [contradiction|].
+    destruct (filter flt (c0 :: cs)) as [|g gs] eqn:Eg; [contradiction|].
+    assert (Hx : existsb (fun c => match c with (_, _, _, len) => Nat.eqb len (length bs) end) (g :: gs) = true).
+    { apply existsb_exists. exists (rid, dops, dd, length bs). split; [exact Hg | apply Nat.eqb_refl]. }
+    rewrite Hx. reflexivity.
+  Qed.
+
+  (* verdict 1 is exactly "the bytes have no reading at all" *)
+  Theorem judge_no_reading_spec : forall m name ops dc bs,
+    fst (judge bucket wbucket row_of m name ops dc bs) = 1 <-> denote2 bucket wbucket m bs = [].
+  Proof.
+    intros m name ops dc bs. unfold judge.
+    set (cands := denote2 bucket wbucket m bs).
+    match goal with |- context [filter ?f cands] => set (flt := f) end.
+    destruct cands as [|c0 cs]; [cbn; split; reflexivity|].
+    destruct (filter flt (c0 :: cs)) as [|g gs]; [cbn; split; discriminate|].
+    destruct (existsb _ (g :: gs)); cbn; split; discriminate.
+  Qed.
+
   (* `other_names` lists exactly the full-length denotations whose row names a different mnemonic: when it is empty (or
      only reviewed aliases), the denotation of the bytes is unique up to operands *)
   Theorem other_names_spec : forall m name bs rid,
